@@ -383,31 +383,27 @@ func OnceValues[T1, T2 any](f func() (T1, T2)) func() (T1, T2) {
 // the current mapping of the key and is a scheduling point, which realises the
 // documented contract (no key twice; any mapping from during the call).
 type Map struct {
-	real  sync.Map
-	mu    sync.Mutex
-	order [mapCap]any // fixed array + manual loops: append/copy would be seen by the race detector's runtime hooks
-	n     int
+	real sync.Map
+	mu   sync.Mutex
+	// insertion order of the live keys. All bookkeeping runs with race synchronisation disabled and under mu
+	// (it is the harness's, not the program's, state); keys may be many (a package-level cache keyed by type).
+	keys []any       // insertion order; deleted entries are tombstones until compaction
+	idx  map[any]int // key -> position in keys
+	dead int
 }
 
-const mapCap = 256
+type tombstone struct{}
 
 //go:norace
 func (m *Map) noteStore(k any) {
 	vrt.RaceDisable()
 	m.mu.Lock()
-	found := false
-	for i := 0; i < m.n; i++ {
-		if m.order[i] == k {
-			found = true
-			break
-		}
+	if m.idx == nil {
+		m.idx = map[any]int{}
 	}
-	if !found {
-		if m.n >= mapCap {
-			panic("vsync.Map: more than 256 keys")
-		}
-		m.order[m.n] = k
-		m.n++
+	if _, found := m.idx[k]; !found {
+		m.idx[k] = len(m.keys)
+		m.keys = append(m.keys, k)
 	}
 	m.mu.Unlock()
 	vrt.RaceEnable()
@@ -417,14 +413,19 @@ func (m *Map) noteStore(k any) {
 func (m *Map) noteDelete(k any) {
 	vrt.RaceDisable()
 	m.mu.Lock()
-	for i := 0; i < m.n; i++ {
-		if m.order[i] == k {
-			for j := i; j+1 < m.n; j++ {
-				m.order[j] = m.order[j+1]
+	if i, found := m.idx[k]; found {
+		delete(m.idx, k)
+		m.keys[i] = tombstone{}
+		m.dead++
+		if m.dead > 32 && m.dead > len(m.keys)/2 {
+			live := make([]any, 0, len(m.keys)-m.dead)
+			for _, x := range m.keys {
+				if _, gone := x.(tombstone); !gone {
+					m.idx[x] = len(live)
+					live = append(live, x)
+				}
 			}
-			m.n--
-			m.order[m.n] = nil
-			break
+			m.keys, m.dead = live, 0
 		}
 	}
 	m.mu.Unlock()
@@ -435,9 +436,11 @@ func (m *Map) noteDelete(k any) {
 func (m *Map) snapshot() []any {
 	vrt.RaceDisable()
 	m.mu.Lock()
-	out := make([]any, m.n)
-	for i := 0; i < m.n; i++ {
-		out[i] = m.order[i]
+	out := make([]any, 0, len(m.keys)-m.dead)
+	for _, x := range m.keys {
+		if _, gone := x.(tombstone); !gone {
+			out = append(out, x)
+		}
 	}
 	m.mu.Unlock()
 	vrt.RaceEnable()
